@@ -137,6 +137,7 @@ func runChecks(props []string, tier string, writeEv bool) (code int) {
 			r.Functions = p.NFuncs
 			runProp(id, p, r)
 		}
+		programs.Delete(p.SSA)
 		p = nil
 		debug.FreeOSMemory()
 	}
